@@ -1,8 +1,9 @@
 use crate::{
-    cfg::Cfg,
-    parser::{Label, ParserNode},
+    cfg::{Cfg, CfgNode},
+    parser::{HasIdentity, Label, ParserNode},
     passes::{DiagnosticManager, LintError, LintPass},
 };
+use std::collections::BTreeSet;
 use uuid::Uuid;
 
 /// A lint to ensure warn about instructions that exist in more than one
@@ -15,30 +16,40 @@ use uuid::Uuid;
 pub struct OverlappingFunctionCheck;
 impl LintPass for OverlappingFunctionCheck {
     fn run(cfg: &Cfg, errors: &mut DiagnosticManager) {
+        let owners = |node: &CfgNode| {
+            node.functions()
+                .iter()
+                .map(|func| func.id())
+                .collect::<BTreeSet<_>>()
+        };
+
         for node in cfg {
-            // Capture entry points that are part of more than one function
-            // NOTE: We only give an error for the first line of a function,
-            //       even though there may be many overlapping instructions.
+            // Capture the places where code starts to be part of more than one
+            // function: a shared function entry, or an instruction that is
+            // entered from code with different owners (a shared tail).
+            // NOTE: We only give an error for the first shared line, even
+            //       though there may be many overlapping instructions.
             //       This is done to not overwhelm the user with errors.
-            if node.functions().len() > 1 && node.is_function_entry_with_func().is_some() {
+            if node.functions().len() > 1
+                && (node.is_function_entry_with_func().is_some()
+                    || node.prevs().iter().any(|prev| owners(prev) != owners(&node)))
+            {
                 // HACK: Create a dummy label with the same name
-                let labels = node.labels();
-                let labels = labels
-                    .iter()
-                    .map(|l| Label {
+                let mut labels = node.labels().into_iter().collect::<Vec<_>>();
+                labels.sort();
+                let location = match labels.first() {
+                    Some(l) => ParserNode::Label(Label {
                         name: l.clone(),
                         key: Uuid::new_v4(),
                         token: l.raw_token().clone(),
-                    })
-                    .collect::<Vec<_>>();
-                let label = labels.first();
+                    }),
+                    // Shared code without a label: point at the instruction
+                    None => node.node(),
+                };
 
-                if let Some(l) = label {
-                    errors.push(LintError::NodeInManyFunctions(
-                        ParserNode::Label(l.clone()),
-                        node.functions().clone().into_iter().collect::<Vec<_>>(),
-                    ));
-                }
+                let mut functions = node.functions().clone().into_iter().collect::<Vec<_>>();
+                functions.sort_by_key(|func| func.name());
+                errors.push(LintError::NodeInManyFunctions(location, functions));
             }
         }
     }
